@@ -81,10 +81,10 @@ func dirOf(name string) string {
 // Fault kinds. Each applies to one kind of step; a fault planned on a step of
 // another kind does not fire (and is reported as such).
 const (
-	FReadEACCES  = "read-eacces"    // open for read fails
-	FReadENOENT  = "read-enoent"    // file vanished before open
-	FReadEIO     = "read-eio"       // read fails after Param bytes
-	FStdinEIO    = "stdin-eio"      // this stdin Read returns (0, EIO)
+	FReadEACCES  = "read-eacces"     // open for read fails
+	FReadENOENT  = "read-enoent"     // file vanished before open
+	FReadEIO     = "read-eio"        // read fails after Param bytes
+	FStdinEIO    = "stdin-eio"       // this stdin Read returns (0, EIO)
 	FStdinEOF    = "stdin-early-eof" // this stdin Read and all later return (0, EOF)
 	FOpenWEACCES = "write-open-eacces"
 	FOpenWENOENT = "write-open-enoent"
@@ -153,10 +153,13 @@ type Stream struct {
 	Plan []int
 	// EOFWithData: the Read that delivers the last bytes also returns io.EOF.
 	EOFWithData bool
-	pos         int
-	reads       int
-	dead        bool // early EOF fired
-	zeros       int
+	// Redirect: stdin is a regular file (shell "<"), so Stat reports its size;
+	// otherwise it is a pipe.
+	Redirect bool
+	pos      int
+	reads    int
+	dead     bool // early EOF fired
+	zeros    int
 }
 
 // ---------------------------------------------------------------- process
@@ -171,7 +174,10 @@ type Proc struct {
 	FS     *FS
 	Stdin  *Stream
 	Sector int // sector size for file writes, >=1
-	Faults []Fault
+	// FileChunk bounds how many bytes one Read of an open regular file
+	// delivers (0 = as much as asked): short reads are legal for any reader.
+	FileChunk int
+	Faults    []Fault
 
 	Stdout bytes.Buffer
 	Stderr bytes.Buffer
@@ -517,10 +523,102 @@ func (h *Handle) Read(b []byte) (int, error) {
 		rec.Result = "EOF"
 		return 0, io.EOF
 	}
-	n := copy(b, data[h.rpos:])
+	want := len(b)
+	if p.FileChunk > 0 && p.FileChunk < want {
+		want = p.FileChunk
+	}
+	n := copy(b[:want], data[h.rpos:])
 	h.rpos += n
 	rec.Result = fmt.Sprintf("ok %d", n)
 	return n, nil
+}
+
+// Info is what Stat reports.
+type Info struct {
+	Name  string
+	Size  int64
+	Dir   bool
+	Pipe  bool
+	Clock int64
+}
+
+// Stat implements os.Stat on the simulated disk.
+func Stat(name string) (Info, error) {
+	p := Cur
+	p.Steps = append(p.Steps, StepRec{N: len(p.Steps), Kind: "stat", Arg: name})
+	if p.FS.Dirs[name] {
+		return Info{Name: name, Dir: true, Clock: p.Clock}, nil
+	}
+	d, ok := p.FS.Files[name]
+	if !ok {
+		return Info{}, pathErr("stat", name, syscall.ENOENT)
+	}
+	return Info{Name: name, Size: int64(len(d)), Clock: p.Clock}, nil
+}
+
+// Stat implements (*os.File).Stat.
+func (h *Handle) Stat() (Info, error) {
+	p := Cur
+	switch h.std {
+	case 0:
+		if p.Stdin != nil && p.Stdin.Redirect {
+			return Info{Name: "stdin", Size: int64(len(p.Stdin.Data)), Clock: p.Clock}, nil
+		}
+		return Info{Name: "stdin", Pipe: true, Clock: p.Clock}, nil
+	case 1, 2:
+		return Info{Name: h.Name, Pipe: true, Clock: p.Clock}, nil
+	}
+	return Info{Name: h.Name, Size: int64(len(p.FS.Files[h.Name])), Clock: p.Clock}, nil
+}
+
+// Remove implements os.Remove.
+func Remove(name string) error {
+	p := Cur
+	p.Steps = append(p.Steps, StepRec{N: len(p.Steps), Kind: "remove", Arg: name})
+	if _, ok := p.FS.Files[name]; !ok {
+		return pathErr("remove", name, syscall.ENOENT)
+	}
+	delete(p.FS.Files, name)
+	return nil
+}
+
+// Rename implements os.Rename (atomic replace).
+func Rename(from, to string) error {
+	p := Cur
+	p.Steps = append(p.Steps, StepRec{N: len(p.Steps), Kind: "rename", Arg: from + " -> " + to})
+	d, ok := p.FS.Files[from]
+	if !ok {
+		return &fs.PathError{Op: "rename", Path: from, Err: syscall.ENOENT}
+	}
+	if !p.FS.Dirs[dirOf(to)] || p.FS.Dirs[to] {
+		return &fs.PathError{Op: "rename", Path: to, Err: syscall.ENOENT}
+	}
+	p.FS.Files[to] = d
+	delete(p.FS.Files, from)
+	return nil
+}
+
+// Mkdir implements os.Mkdir / os.MkdirAll.
+func Mkdir(name string) error {
+	p := Cur
+	p.Steps = append(p.Steps, StepRec{N: len(p.Steps), Kind: "mkdir", Arg: name})
+	p.FS.Dirs[name] = true
+	return nil
+}
+
+// Truncate implements (*os.File).Truncate for a file open for writing.
+func (h *Handle) Truncate(size int64) error {
+	p := Cur
+	if h.std >= 0 || !h.write {
+		return pathErr("truncate", h.Name, syscall.EINVAL)
+	}
+	d := p.FS.Files[h.Name]
+	if int(size) <= len(d) {
+		p.FS.Files[h.Name] = d[:size]
+	} else {
+		p.FS.Files[h.Name] = append(d, make([]byte, int(size)-len(d))...)
+	}
+	return nil
 }
 
 func (h *Handle) Close() error {
